@@ -166,6 +166,13 @@ def monitor_request_target_forms(ctx):
     pre = ctx.path("retryloc")
     out, dt = vf.run_driver(["retryloc", "-out", pre, "-seed", str(ctx.seed), "-tier", ctx.tier])
     ctx.timings["retryloc_driver"] = round(dt, 2)
+    # model and real code on EVERY automatic retry / error page of the sweep: Standalone.Retry + http.Redirect (+ html/template for
+    # the page's retry link) vs Model/RetryUri.v, from the request line as net/http parses it
+    ctx.correspondence("real error handler behind the real router (net/http request-line parsing, ingress matching, Standalone.Retry with the "
+                       "decrypted login cookie, http.Redirect's Location; the error page's retry link as html/template writes it) vs Model/RetryUri.v "
+                       "(+ Model/GoUrl.v, Redirect.v, HtmlEsc.v) on every 307 and every error page of `wwh retryloc`", pre + ".in", pre + ".impl",
+                       note="line = mode, SSO domain, default redirect URL, configured ingress paths, request-target, Host, X-Forwarded-Host, "
+                            "login-cookie Referer; the model does not take Host / X-Forwarded-Host (Retry does not read them)")
     recs = [json.loads(l) for l in open(pre + ".jsonl")]
     allowed_urls = sorted({u for r in recs for u in r["ingresses"] + list(r["configured_defaults"].values())})
     with_loc = [r for r in recs if r["location"]]
@@ -390,10 +397,15 @@ def run(ctx):
                 "with a port), ingress (5 SSO-proxy configurations) - the whole pool through every function under the default configuration and each "
                 "configuration's own near misses through its mode's Canonical/Clean (thorough: the whole pool under every configuration). " + _spx.RULE + ". "
                 "request-target forms (wwh retryloc): {origin-form, absolute-form naming the ingress / a foreign host (http, https+port, upper case, ingress host as "
-                "userinfo), scheme without / with empty authority, doubled leading slash, foreign Host header} x X-Forwarded-Host {absent, the configured ingress} x "
+                "userinfo; naming the ingress with userinfo, also with a query ending in an undecodable '#' part), scheme without / with empty authority, doubled leading slash, "
+                "foreign Host header} x X-Forwarded-Host {absent, the configured ingress} x "
                 "{login, callback, logout, logout callback, local logout, front-channel logout} x failure causes {none, no matching ingress, provider refuses / 5xx / "
-                "undecodable / connection refused, missing login cookie, session store down plain / deadline / cancelled} x 3 configurations (standalone with and "
-                "without path prefix, SSO server), retry redirects followed for up to 6 requests, every Location resolved by Node against the ingress URL. "
+                "undecodable / connection refused, missing login cookie, login cookie with a relative / absolute Referer, redirect parameter on the callback, "
+                "session store down plain / deadline / cancelled} x 3 configurations (standalone with and "
+                "without path prefix, SSO server), retry redirects followed for up to 6 requests, plus single failing login / callback requests over 10 spellings of the "
+                "authority part (userinfo with escapes, empty userinfo, IPv6 literal, scheme only) x 19 spellings of the query (redirect parameter repeated, undecodable, "
+                "with ';', off-site, backslash, '#' tails); every Location resolved by Node against the ingress URL, and every 307 Location / error-page retry link "
+                "compared with Model/RetryUri.v. "
                 "distinct_nontrivial = cases whose canonical redirect is not the fallback")
     ctx.assumptions += [
         "browsers are represented by the WHATWG URL algorithm (Model/Whatwg.v for the theorems, Node 20's implementation for the monitor); the model is validated against Node only",
@@ -401,4 +413,9 @@ def run(ctx):
         "the value passed to Clean at login/logout callback time is the value Canonical stored in the encrypted cookie (cookie integrity: C-series crypto properties); validating an un-canonicalised target is proved unsafe (c04_raw_validation_unsafe)",
         "net/url, path.Clean and net/http.Redirect are modelled by transliteration and tied to the Go toolchain by the differential only",
         "the operator-configured defaults (ingress, default redirect URL, post-logout URI) are not validated by the property",
+        "retry theorems (Proofs/RetryUriP.v): the error handler is reached only through the router, i.e. r.URL.Path starts with exactly one '/' "
+        "(c04_retry_unrouted_refuted shows the Location for other records: unreachable unless an operator configures an "
+        "ingress path starting with '//'); a request URL WITH userinfo can come back as '//userinfo@...' which browsers refuse "
+        "(c04_retry_single_slash_refuted: GET https://u@app.example.com/oauth2/login?x#%zz); the literal form of the callback-branch Location is proved for ingress paths made of non-empty, non-dot segments "
+        "of bytes net/url leaves unescaped in a path",
     ] + _spx.ASSUME
